@@ -6,6 +6,7 @@
 import EV.Proofs.CodecTx
 import EV.Proofs.CodecBlock
 import EV.Proofs.Sizes
+import EV.Proofs.TxAccessors
 namespace EV.Props.C12
 open EV EV.Codec EV.Proofs.CodecTx EV.Proofs.CodecBlock
 
@@ -49,5 +50,370 @@ theorem block_weight_eq (P : Prims) (b : Block) :
 /-- non-vacuity: an output with witness and confidential value/nonce has a positive discount -/
 example : discount ⟨.null, .conf (List.replicate 33 8), .conf (List.replicate 33 2), [],
     ⟨some (List.replicate 67 0), some (List.replicate 65 0)⟩⟩ = 132 + 96 + 128 := by decide
+
+/-! ## Transaction-level accessors and classification (model growth: `EV.Model.TxAccessors`)
+
+  Fee accounting (`TxOut::{new_fee, is_fee}`, `Transaction::{fee_in, all_fees}`), the pegout template
+  (`TxOut::{is_null_data, is_pegout, pegout_data}`), the pegin witness layout
+  (`PeginData::{from_pegin_witness, to_pegin_witness}`, `TxIn::pegin_data`), the input/transaction flags
+  and the `Sequence` predicates, with bridges to the size arithmetic and the encoders above.
+  `checks = true` is a build with overflow checks (an overflowing `u64` `+` panics), `false` wraps. -/
+section TxAccessors
+open EV.TxAcc EV.Acc EV.Proofs.TxAccessors
+
+/-! ### (a) fee accounting -/
+
+/-- the fee outputs are exactly those with an empty script and an explicit value and asset (as coded) -/
+theorem is_fee_iff (o : TxOut) :
+    isFee o = true ↔ o.scriptPubkey = [] ∧ (∃ v, o.value = .explicit v) ∧ (∃ a, o.asset = .explicit a) :=
+  EV.Proofs.TxAccessors.isFee_iff o
+
+/-- `fee_in(asset)` under overflow checks: the sum of the explicit values of exactly the fee outputs in
+    that asset (`feeSum`, a sum over `feeOutputs`), and a panic exactly when that sum does not fit a `u64` -/
+theorem fee_in_checked (t : Tx) (a : Bytes) :
+    feeIn true t a = if feeSum t.output a < 2^64 then .ok (feeSum t.output a) else .panic feeOverflowSite := by
+  have := feeInLoop_checked a t.output 0 (by decide)
+  simpa [feeIn] using this
+
+/-- `fee_in(asset)` without overflow checks (release profile): the same sum modulo 2^64, never a panic -/
+theorem fee_in_wrapping (t : Tx) (a : Bytes) : feeIn false t a = .ok (feeSum t.output a % 2^64) := by
+  have := feeInLoop_wrapping a t.output 0 (by decide)
+  simpa [feeIn] using this
+
+/-- the outputs `feeSum` adds up are exactly the `is_fee` outputs whose explicit asset is `a` -/
+theorem fee_outputs_spec (outs : List TxOut) (a : Bytes) (o : TxOut) :
+    o ∈ feeOutputs outs a ↔ o ∈ outs ∧ isFee o = true ∧ o.asset = .explicit a := by
+  simp [feeOutputs, List.mem_filter]
+
+/-- `all_fees` when no per-asset sum overflows: one entry per asset that has a fee output, no duplicates,
+    and every entry is that asset's `feeSum` -/
+theorem all_fees_ok (t : Tx) (h : ∀ a, feeSum t.output a < 2^64) :
+    ∃ m, allFees true t = .ok m ∧ (∀ a, feeMapGet m a = feeSum t.output a) ∧
+      (∀ a, a ∈ m.map Prod.fst ↔ ∃ o ∈ t.output, isFee o = true ∧ o.asset = .explicit a) ∧
+      (m.map Prod.fst).Nodup := by
+  obtain ⟨m, e, hg, hk, hn⟩ := (allFeesLoop_checked t.output [] (by intro a; simp [feeMapGet_nil])).1
+    (by intro a; simpa [feeMapGet_nil] using h a)
+  refine ⟨m, e, fun a => by simpa [feeMapGet_nil] using hg a, ?_, hn (by simp [keys])⟩
+  intro a
+  have := hk a
+  simpa [keys, feeAsset] using this
+
+/-- `all_fees` under overflow checks panics as soon as one asset's fee sum exceeds `u64::MAX`
+    (recorded in DESIGN §3 as observed behaviour of the real code; it is not a `Result` API) -/
+theorem all_fees_overflow (t : Tx) (h : ∃ a, 2^64 ≤ feeSum t.output a) :
+    allFees true t = .panic feeOverflowSite := by
+  obtain ⟨a, ha⟩ := h
+  exact (allFeesLoop_checked t.output [] (by intro a; simp [feeMapGet_nil])).2 ⟨a, by simpa [feeMapGet_nil] using ha⟩
+
+/-- `all_fees` without overflow checks (release profile): never a panic; the same keys, every entry is its
+    asset's `feeSum` modulo 2^64 -/
+theorem all_fees_wrapping (t : Tx) :
+    ∃ m, allFees false t = .ok m ∧ (∀ a, feeMapGet m a = feeSum t.output a % 2^64) ∧
+      (∀ a, a ∈ m.map Prod.fst ↔ ∃ o ∈ t.output, isFee o = true ∧ o.asset = .explicit a) ∧
+      (m.map Prod.fst).Nodup := by
+  obtain ⟨m, e, hg, hk, hn⟩ := allFeesLoop_wrapping t.output [] (by intro a; simp [feeMapGet_nil])
+  refine ⟨m, e, fun a => by simpa [feeMapGet_nil] using hg a, ?_, hn (by simp [keys])⟩
+  intro a
+  have := hk a
+  simpa [keys, feeAsset] using this
+
+/-- `fee_in asset` is the lookup of `asset` in `all_fees` (0 when absent) -/
+theorem fee_in_eq_all_fees_lookup (t : Tx) (m : FeeMap) (h : allFees true t = .ok m) (a : Bytes) :
+    feeIn true t a = .ok (feeMapGet m a) := by
+  have hall : ∀ a, feeSum t.output a < 2^64 := by
+    intro a
+    by_cases hlt : feeSum t.output a < 2^64
+    · exact hlt
+    · have := all_fees_overflow t ⟨a, by omega⟩
+      rw [h] at this; cases this
+  obtain ⟨m', e, hg, _, _⟩ := all_fees_ok t hall
+  rw [h] at e; cases e
+  rw [fee_in_checked, if_pos (hall a), hg a]
+
+/-- fees do not depend on the order of the outputs (also not whether the call panics) -/
+theorem fee_in_perm (checks : Bool) (t t' : Tx) (h : t.output.Perm t'.output) (a : Bytes) :
+    feeIn checks t a = feeIn checks t' a := by
+  cases checks
+  · rw [fee_in_wrapping, fee_in_wrapping, feeSum_perm h]
+  · rw [fee_in_checked, fee_in_checked, feeSum_perm h]
+
+/-- `all_fees` of a permuted output list: the same entries (as a finite map) -/
+theorem all_fees_perm (t t' : Tx) (h : t.output.Perm t'.output) (m : FeeMap) (hm : allFees true t = .ok m) :
+    ∃ m', allFees true t' = .ok m' ∧ ∀ a, feeMapGet m' a = feeMapGet m a ∧ (a ∈ m'.map Prod.fst ↔ a ∈ m.map Prod.fst) := by
+  have hall : ∀ a, feeSum t.output a < 2^64 := by
+    intro a
+    by_cases hlt : feeSum t.output a < 2^64
+    · exact hlt
+    · have := all_fees_overflow t ⟨a, by omega⟩
+      rw [hm] at this; cases this
+  obtain ⟨m0, e0, hg0, hk0, _⟩ := all_fees_ok t hall
+  rw [hm] at e0; cases e0
+  obtain ⟨m', e', hg', hk', _⟩ := all_fees_ok t' (fun a => by rw [← feeSum_perm h]; exact hall a)
+  refine ⟨m', e', fun a => ⟨by rw [hg', hg0, feeSum_perm h], ?_⟩⟩
+  rw [hk' a, hk0 a]
+  constructor
+  · rintro ⟨o, ho, h1, h2⟩; exact ⟨o, h.symm.subset ho, h1, h2⟩
+  · rintro ⟨o, ho, h1, h2⟩; exact ⟨o, h.subset ho, h1, h2⟩
+
+/-- fee sums are additive under appending outputs -/
+theorem fee_sum_append (xs ys : List TxOut) (a : Bytes) : feeSum (xs ++ ys) a = feeSum xs a + feeSum ys a :=
+  feeSum_append xs ys a
+
+/-- … and so is `fee_in`: if it succeeds on the longer transaction it succeeds on both parts and adds up -/
+theorem fee_in_additive (t : Tx) (more : List TxOut) (a : Bytes) (v : Nat)
+    (h : feeIn true { t with output := t.output ++ more } a = .ok v) :
+    ∃ v1 v2, feeIn true t a = .ok v1 ∧ feeIn true { t with output := more } a = .ok v2 ∧ v = v1 + v2 := by
+  rw [fee_in_checked] at h
+  simp only [feeSum_append] at h
+  by_cases hlt : feeSum t.output a + feeSum more a < 2^64
+  · rw [if_pos hlt] at h
+    refine ⟨feeSum t.output a, feeSum more a, ?_, ?_, by cases h; rfl⟩
+    · rw [fee_in_checked, if_pos (by omega)]
+    · rw [fee_in_checked, if_pos (by simp only; omega)]
+  · rw [if_neg hlt] at h; cases h
+
+/-- BRIDGE to the sizes: a `new_fee` output is a fee output, is canonical, serializes to exactly 44 bytes,
+    contributes `44·scale` (+2 for its empty witness when the transaction has witnesses) to `scaled_size`,
+    and nothing to the ELIP-200 discount -/
+theorem new_fee_size (P : Prims) (v : Nat) (a : Bytes) (hv : v < 2^64) (ha : a.length = 32) :
+    isFee (newFee v a) = true ∧ (newFee v a).wf P ∧ (newFee v a).enc.length = 44 ∧
+    (∀ scale wit, Tx.outputScaled scale wit (newFee v a) = scale * 44 + (if wit then 2 else 0)) ∧
+    discount (newFee v a) = 0 ∧ isPartiallyBlinded (newFee v a) = false :=
+  ⟨rfl, newFee_wf P v a hv ha, newFee_enc_length v a ha, fun s w => newFee_outputScaled s w v a, newFee_discount v a, rfl⟩
+
+/-- any fee output: 43 bytes plus its nonce (1 or 33), plus its witness when witnesses are serialized -/
+theorem fee_output_scaled (o : TxOut) (h : isFee o = true) (scale : Nat) (wit : Bool) :
+    Tx.outputScaled scale wit o = scale * (43 + o.nonce.encodedLength) + (if wit then o.witness.enc.length else 0) :=
+  isFee_outputScaled o h scale wit
+
+/-- appending a `new_fee` output: size +44, weight +176 (+2 with witnesses), plus the growth of the
+    output counter; the witness flag is unchanged -/
+theorem with_fee_sizes (t : Tx) (v : Nat) (a : Bytes) :
+    (withFee t v a).hasWitness = t.hasWitness ∧
+    (withFee t v a).size + varintSize t.output.length =
+      t.size + varintSize (t.output.length + 1) + 44 + (if t.hasWitness then 2 else 0) ∧
+    (withFee t v a).weight + 4 * varintSize t.output.length =
+      t.weight + 4 * varintSize (t.output.length + 1) + 176 + (if t.hasWitness then 2 else 0) :=
+  ⟨withFee_hasWitness t v a, withFee_size t v a, withFee_weight t v a⟩
+
+/-- an output that is not partially blinded gets no discount except for a confidential nonce -/
+theorem not_blinded_discount (o : TxOut) (h : isPartiallyBlinded o = false) :
+    discount o = if o.nonce.isConf then 4 * 32 else 0 := notBlinded_discount o h
+
+/-- the deprecated aliases `get_size` / `get_weight` (transaction and block) are `size` / `weight`, hence
+    the serialized length and 3·stripped + full -/
+theorem get_size_weight_aliases (t : Tx) (ht : t.wf P) (b : Block) (hb : b.wf P) :
+    txGetSize t = t.size ∧ txGetWeight t = t.weight ∧ blockGetSize b = b.size ∧ blockGetWeight b = b.weight ∧
+    txGetSize t = t.enc.length ∧ txGetWeight t = 3 * t.encStripped.length + t.enc.length ∧
+    blockGetSize b = b.enc.length :=
+  ⟨rfl, rfl, rfl, rfl, size_eq P t ht, weight_eq P t ht, block_size_eq P b hb⟩
+
+/-! ### (b) pegout -/
+
+/-- BRIDGE: the instruction iterator of the accessor model (C10, explicit bounds checks) and the one of
+    the script model (C16) are the same function, step by step and run to the end -/
+theorem instruction_models_agree (minimal : Bool) (s : Bytes) :
+    Acc.step minimal s = stepOfScript (Script.next minimal s) ∧
+    Acc.instructions minimal s = .ok (pairOfScript (Script.collect minimal s.length s)) :=
+  ⟨step_eq_next minimal s, instructions_eq minimal s⟩
+
+/-- EXACT CLASS of `pegout_data`: `Some(d)` exactly when the value is explicit and the iterator reads the
+    script, without error, as `OP_RETURN`, a 32-byte push, a non-empty push, then data pushes only; `d`
+    is exactly (value, asset, those pushes).  Every other script / value gives `None` (`pegout_data_total`). -/
+theorem pegout_data_iff (o : TxOut) (d : PegoutData) :
+    pegoutData o = .ok (some d) ↔
+      o.value = .explicit d.value ∧ d.asset = o.asset ∧ d.genesisHash.length = 32 ∧ d.scriptPubkey ≠ [] ∧
+      Acc.instructions false o.scriptPubkey = .ok (accPegoutInstrs d.genesisHash d.scriptPubkey d.extraData, none) :=
+  pegoutData_iff o d
+
+/-- `pegout_data` is total: no panic, no error, on any script and any value/asset -/
+theorem pegout_data_total (o : TxOut) : ∃ r, pegoutData o = .ok r := pegoutData_total o
+
+/-- `is_pegout()` ⇔ `pegout_data().is_some()` -/
+theorem is_pegout_iff (o : TxOut) : isPegout o = .ok true ↔ ∃ d, pegoutData o = .ok (some d) := by
+  unfold isPegout
+  obtain ⟨r, hr⟩ := pegoutData_total o
+  rw [hr]
+  cases r <;> simp
+
+/-- PARTIAL INVERSE: for every genesis hash of 32 bytes, non-empty destination script and extra pushes
+    (all below 4 GiB), the template script parses back to exactly these components, for every explicit
+    value and every asset, nonce and witness -/
+theorem pegout_template_roundtrip (g spk : Bytes) (extra : List Bytes) (h : PegoutArgsOk g spk extra)
+    (hg : g.length = 32) (hs : spk ≠ []) (asset : Asset) (v : Nat) (nonce : Nonce) (w : TxOutWitness) :
+    pegoutData ⟨asset, .explicit v, nonce, pegoutScript g spk extra, w⟩ = .ok (some ⟨v, asset, g, spk, extra⟩) :=
+  (pegoutData_iff _ _).mpr ⟨rfl, rfl, hg, hs, instructions_pegoutScript g spk extra h⟩
+
+/-- BRIDGE to the `script::Builder` model (C16): the template is what
+    `push_opcode(OP_RETURN).push_slice(genesis).push_slice(script).push_slice(extra)…` writes -/
+theorem pegout_template_builder (g spk : Bytes) (extra : List Bytes) (h : PegoutArgsOk g spk extra) :
+    Script.build (pegoutBuilderCalls g spk extra) = some (pegoutScript g spk extra) := build_pegout g spk extra h
+
+/-- value must be explicit (as coded): a null or confidential value is never a pegout -/
+theorem pegout_requires_explicit_value (o : TxOut) (h : ∀ v, o.value ≠ .explicit v) : pegoutData o = .ok none := by
+  obtain ⟨r, hr⟩ := pegoutData_total o
+  cases r with
+  | none => exact hr
+  | some d => exact absurd ((pegoutData_iff o d).mp hr).1 (h d.value)
+
+/-! ### (c) pegin -/
+
+/-- EXACT CLASS of `from_pegin_witness` and the documented slices: accepted exactly for 6 items with an
+    8-byte value, 32-byte asset, 32-byte genesis hash and a proof of at least 80 bytes; the fields are
+    items 0..5 verbatim (value little endian), the outpoint is the given one, and the referenced block is
+    the hash of the first 80 bytes of the proof -/
+theorem from_pegin_witness_iff (H : Bytes → Bytes) (w : List Bytes) (txid : Bytes) (vout : Nat) (d : PeginData) :
+    fromPeginWitness H w txid vout = .ok d ↔
+      peginWitnessOk w = true ∧
+      d = ⟨txid, vout, leNat (w.getD 0 []), w.getD 1 [], w.getD 2 [], w.getD 3 [], w.getD 4 [], w.getD 5 [],
+           H ((w.getD 5 []).take 80)⟩ := fromPeginWitness_iff H w txid vout d
+
+/-- total: every other witness is an error, never a panic -/
+theorem from_pegin_witness_err_iff (H : Bytes → Bytes) (w : List Bytes) (txid : Bytes) (vout : Nat) :
+    (∃ e, fromPeginWitness H w txid vout = .err e) ↔ peginWitnessOk w = false :=
+  fromPeginWitness_err_iff H w txid vout
+
+/-- `from_pegin_witness ∘ to_pegin_witness = id` on well-formed data; the witness has the 6 items -/
+theorem pegin_witness_roundtrip (H : Bytes → Bytes) (d : PeginData) (h : PeginDataOk H d) :
+    (toPeginWitness d).length = EV.Gen.txaccPeginWitnessItems ∧
+    fromPeginWitness H (toPeginWitness d) d.outpointTxid d.outpointVout = .ok d :=
+  ⟨rfl, from_to_peginWitness H d h⟩
+
+/-- `to_pegin_witness ∘ from_pegin_witness = id`: an accepted witness is reproduced item by item, and what
+    was parsed is well formed -/
+theorem pegin_witness_roundtrip_inv (H : Bytes → Bytes) (w : List Bytes) (txid : Bytes) (vout : Nat) (d : PeginData)
+    (h : fromPeginWitness H w txid vout = .ok d) : toPeginWitness d = w ∧ PeginDataOk H d :=
+  to_from_peginWitness H w txid vout d h
+
+/-- `TxIn::pegin_data`: `Some` exactly for a pegin input with an accepted witness, parsed against the
+    input's own previous output; total -/
+theorem pegin_data_iff (H : Bytes → Bytes) (i : TxIn) (d : PeginData) :
+    (peginData H i = .ok (some d) ↔
+      i.isPegin = true ∧ fromPeginWitness H i.witness.peginWitness i.previousOutput.txid i.previousOutput.vout = .ok d) ∧
+    (∃ r, peginData H i = .ok r) ∧ (peginPrevout i = if i.isPegin then some i.previousOutput else none) :=
+  ⟨peginData_iff H i d, peginData_total H i, rfl⟩
+
+/-! ### (d) the classification lattice -/
+
+/-- pegout ⊂ null data ⊂ OP_RETURN scripts, and fee outputs are disjoint from all three -/
+theorem classification_lattice (o : TxOut) :
+    (isPegout o = .ok true → outIsNullData o = .ok true) ∧
+    (outIsNullData o = .ok true → Acc.isOpReturn o.scriptPubkey = .ok true) ∧
+    (isFee o = true → outIsNullData o = .ok false ∧ Acc.isOpReturn o.scriptPubkey = .ok false ∧ isPegout o = .ok false) := by
+  refine ⟨?_, fun h => nulldata_opreturn h, ?_⟩
+  · intro h
+    obtain ⟨d, hd⟩ := (is_pegout_iff o).mp h
+    exact pegout_nulldata o d hd
+  · intro h
+    obtain ⟨h1, h2, h3⟩ := fee_not_nulldata o h
+    exact ⟨h1, h2, by unfold isPegout; rw [h3]; rfl⟩
+
+/-! ### inputs and transactions -/
+
+/-- `outpoint_flag` is bit 6 for a pegin and bit 7 for an issuance; BRIDGE to the encoder: it is the top
+    byte of the serialized index word -/
+theorem outpoint_flag_spec (i : TxIn) :
+    outpointFlag i = (if i.isPegin then 64 else 0) + (if i.hasIssuance then 128 else 0) ∧
+    i.voutWord = i.previousOutput.vout ||| (outpointFlag i <<< 24) :=
+  ⟨outpointFlag_eq i, voutWord_eq_flag i⟩
+
+/-- a canonical coinbase input carries no flags, hence is neither a pegin nor an issuance -/
+theorem coinbase_input_no_flags (i : TxIn) (hw : i.wfBody P) (hc : inIsCoinbase i = true) :
+    i.isPegin = false ∧ i.hasIssuance = false ∧ outpointFlag i = 0 ∧ peginPrevout i = none := by
+  obtain ⟨h1, h2⟩ := coinbase_no_flags P i hw hc
+  refine ⟨h1, h2, ?_, ?_⟩
+  · rw [outpointFlag_eq, h1, h2]; rfl
+  · unfold peginPrevout; rw [h1]; rfl
+
+/-- `Transaction::is_coinbase` never panics (the index is guarded by the length test) and holds exactly
+    for a single input spending the null outpoint -/
+theorem tx_is_coinbase_iff (t : Tx) :
+    (∃ b, txIsCoinbase t = .ok b) ∧
+    (txIsCoinbase t = .ok true ↔ ∃ i, t.input = [i] ∧ i.previousOutput = OutPoint.null) := by
+  rw [txIsCoinbase_eq]
+  refine ⟨⟨_, rfl⟩, ?_⟩
+  match t.input with
+  | [] => simp
+  | [i] => simp [inIsCoinbase]
+  | _ :: _ :: _ => simp
+
+/-- BRIDGE to the encoder: `has_witness` is the flag byte (offset 4) of the serialization -/
+theorem has_witness_is_flag_byte (t : Tx) : (t.enc.drop 4).head? = some (if t.hasWitness then 1 else 0) :=
+  enc_witness_flag t
+
+/-! ### Sequence -/
+
+/-- final ⇔ 0xffffffff; absolute lock time enabled ⇔ not final; RBF ⇔ below 0xfffffffe -/
+theorem seq_final_rbf (n : Nat) :
+    (seqIsFinal n = true ↔ n = 0xffffffff) ∧ seqEnablesAbsoluteLockTime n = !seqIsFinal n ∧
+    (seqIsRbf n = true ↔ n < 0xfffffffe) ∧ (seqIsFinal n = true → seqIsRbf n = false) := by
+  refine ⟨by simp [seqIsFinal, EV.Gen.txaccSeqMax], rfl, by unfold seqIsRbf; exact decide_eq_true_iff, ?_⟩
+  intro h
+  have : n = 0xffffffff := by simpa [seqIsFinal, EV.Gen.txaccSeqMax] using h
+  subst this; decide
+
+/-- BIP68: bit 31 disables the relative lock time, bit 22 selects time (set) or height (clear);
+    a relative lock is exactly one of the two kinds -/
+theorem seq_bip68 (n : Nat) :
+    seqIsRelativeLockTime n = !n.testBit 31 ∧ seqIsHeightLocked n = (!n.testBit 31 && !n.testBit 22) ∧
+    seqIsTimeLocked n = (!n.testBit 31 && n.testBit 22) ∧
+    seqIsRelativeLockTime n = (seqIsHeightLocked n != seqIsTimeLocked n) := by
+  refine ⟨seqIsRelativeLockTime_eq n, seqIsHeightLocked_eq n, seqIsTimeLocked_eq n, ?_⟩
+  rw [seqIsRelativeLockTime_eq, seqIsHeightLocked_eq, seqIsTimeLocked_eq]
+  cases n.testBit 31 <;> cases n.testBit 22 <;> rfl
+
+/-- the constructors produce what they say: a height lock, a 512-second-interval lock carrying the
+    interval in its low 16 bits -/
+theorem seq_constructors (x : Nat) (hx : x < 2^16) :
+    seqIsHeightLocked (seqFromHeight x) = true ∧ seqFromHeight x = x ∧
+    seqIsTimeLocked (seqFrom512 x) = true ∧ seqFrom512 x % 2^16 = x ∧ seqFrom512 x < 2^32 :=
+  ⟨seqFromHeight_locked x hx, rfl, (seqFrom512_locked x hx).1, (seqFrom512_locked x hx).2.1, (seqFrom512_locked x hx).2.2⟩
+
+/-- `from_seconds_floor` / `from_seconds_ceil`: 512-second granularity, error exactly when the interval
+    count does not fit 16 bits -/
+theorem seq_from_seconds (s : Nat) :
+    seqFromSecondsFloor s = (if s / 512 < 2^16 then .ok (seqFrom512 (s / 512)) else .err "IntegerOverflow") ∧
+    seqFromSecondsCeil s = (if (s + 511) / 512 < 2^16 then .ok (seqFrom512 ((s + 511) / 512)) else .err "IntegerOverflow") ∧
+    s / 512 * 512 ≤ s ∧ s ≤ (s + 511) / 512 * 512 ∧ (s + 511) / 512 * 512 < s + 512 := by
+  refine ⟨rfl, rfl, ?_, ?_, ?_⟩ <;> omega
+
+/-! non-vacuity and strictness of the lattice -/
+
+/-- two fee outputs in one asset and one in another; the confidential-value output does not count -/
+example : allFees true ⟨2, 0, [], [newFee 5 [1], newFee 7 [2], newFee 6 [1],
+    ⟨.explicit [1], .conf [9], .null, [], TxOutWitness.empty⟩]⟩ = .ok [([1], 11), ([2], 7)] := by decide
+example : feeIn true ⟨2, 0, [], [newFee 5 [1], newFee 7 [2], newFee 6 [1]]⟩ [1] = .ok 11 := by decide
+/-- overflow: panic with checks, wrap without -/
+example : feeIn true ⟨2, 0, [], [newFee (2^64 - 1) [1], newFee 2 [1]]⟩ [1] = .panic feeOverflowSite := by decide
+example : feeIn false ⟨2, 0, [], [newFee (2^64 - 1) [1], newFee 2 [1]]⟩ [1] = .ok 1 := by decide
+example : ∃ a, 2^64 ≤ feeSum [newFee (2^64 - 1) [1], newFee 2 [1]] a := ⟨[1], by decide⟩
+example : ∀ a, feeSum [newFee 5 [1], newFee 7 [2]] a < 2^64 := by
+  intro a; simp only [EV.Proofs.TxAccessors.feeSum_cons, EV.Proofs.TxAccessors.feeSum_nil]
+  have : ∀ (c : Bool) (x : Nat), (if c = true then x else 0) ≤ x := by intro c x; cases c <;> simp
+  have h1 := this (EV.Proofs.TxAccessors.sel a (newFee 5 [1])) (explicitValueD (newFee 5 [1]))
+  have h2 := this (EV.Proofs.TxAccessors.sel a (newFee 7 [2])) (explicitValueD (newFee 7 [2]))
+  have e1 : explicitValueD (newFee 5 [1]) = 5 := rfl
+  have e2 : explicitValueD (newFee 7 [2]) = 7 := rfl
+  omega
+example : PegoutArgsOk (List.replicate 32 7) [0x51] [[], [5]] ∧ (List.replicate 32 7).length = 32 := by
+  refine ⟨⟨by decide, by decide, ?_⟩, by decide⟩
+  intro e he; simp at he; rcases he with rfl | rfl <;> decide
+example : pegoutScript (List.replicate 32 7) [0x51] [[], [5]] =
+    [0x6a, 32] ++ List.replicate 32 7 ++ [1, 0x51, 0, 1, 5] := by decide
+example : PeginDataOk (fun b => b) ⟨List.replicate 32 1, 3, 1000, List.replicate 32 2, List.replicate 32 3, [0x51], [9],
+    List.replicate 80 4, List.replicate 80 4⟩ := by unfold PeginDataOk; decide
+example : peginWitnessOk [List.replicate 8 0, List.replicate 32 2, List.replicate 32 3, [], [], List.replicate 80 4] = true := by decide
+example : peginWitnessOk [List.replicate 8 0, List.replicate 32 2, List.replicate 32 3, [], [], List.replicate 79 4] = false := by decide
+/-- strictness: OP_RETURN script that is not null data; null data that is no pegout; a pegout -/
+example : Acc.isOpReturn [0x6a, 0x61] = .ok true ∧ Acc.isNullData [0x6a, 0x61] = .ok false := by decide
+example : outIsNullData ⟨.null, .explicit 1, .null, [0x6a, 0x51], TxOutWitness.empty⟩ = .ok true ∧
+    isPegout ⟨.null, .explicit 1, .null, [0x6a, 0x51], TxOutWitness.empty⟩ = .ok false := by decide
+example : isPegout ⟨.null, .explicit 1, .null, pegoutScript (List.replicate 32 7) [0x51] [], TxOutWitness.empty⟩ = .ok true := by decide
+example : isFee (newFee 1 (List.replicate 32 0)) = true := rfl
+/-- a coinbase input that is canonical -/
+example : inIsCoinbase ⟨OutPoint.null, false, [], 0xffffffff, AssetIssuance.null, TxInWitness.empty⟩ = true := by decide
+example : seqFromSecondsFloor 33554431 = .ok (65535 ||| 0x400000) ∧ (seqFromSecondsCeil 33554431).isOk = false := by decide
+
+end TxAccessors
 
 end EV.Props.C12
